@@ -138,6 +138,38 @@ func init() {
 					}
 				}
 			}
+		case "deep":
+			// narrow widths with many one-byte chunks (trees of 8..10 levels), and contents with repeated chunks
+			for _, nw := range [][2]int{{128, 2}, {129, 2}, {130, 2}, {257, 2}, {730, 3}} {
+				if nw[0] > *maxN {
+					continue
+				}
+				sh := shape{nw[0], nw[1], 1, 1}
+				for _, open := range []string{"direct", "preload"} {
+					fc := sh.fileCase(fmt.Sprintf("deep-%d-%d-%s", sh.n, sh.w, open))
+					fc.Open = open
+					fc.Content = "random"
+					fc.Seed = int64(sh.n)
+					fc.Mode = "deep"
+					fc.Script = [][]any{{"asbytes"}, {"open", 1}, {"readall", 1, 50}, {"seek", 1, 0, 2}, {"seek", 1, sh.n - 2, 0}, {"readall", 1, 7}}
+					if err := runFileCase(fc, tr); err != nil {
+						return err
+					}
+				}
+			}
+			for pat := 0; pat < 64; pat++ {
+				for _, w := range []int{2, 3} {
+					fc := &FileCase{Fam: "file", ID: fmt.Sprintf("repeat-%d-%d", pat, w), Len: 12, Chunker: "size-2", W: w,
+						Content: fmt.Sprintf("pattern:%d", pat), Writer: defaultWriter, Open: []string{"direct", "reify", "preload"}[pat%3], Mode: "repeat"}
+					fc.Script = [][]any{{"asbytes"}, {"open", 1}, {"readall", 1, 3}, {"seek", 1, 0, 2}}
+					for a := 0; a < 12; a++ {
+						fc.Script = append(fc.Script, []any{"seek", 1, a, 0}, []any{"read", 1, 5})
+					}
+					if err := runFileCase(fc, tr); err != nil {
+						return err
+					}
+				}
+			}
 		case "range":
 			for _, sh := range shs {
 				L := sh.length()
@@ -196,7 +228,8 @@ func init() {
 						fc.Open = open
 						fc.Mode = "fault"
 						fc.Missing = []int{m}
-						fc.NotFound = m%2 == 0
+						fc.NotFound = m%3 == 0
+						fc.Timeout = m%3 == 1
 						fc.Script = [][]any{{"asbytes"}, {"open", 1}, {"readall", 1, 1}, {"open", 2}, {"readall", 2, sh.k + 1},
 							{"open", 3}, {"readall", 3, L + 7}, {"seek", 3, 0, 0}, {"readall", 3, 2},
 							// the block comes back: every reader resumes exactly where the error left it
@@ -247,6 +280,10 @@ func init() {
 						fc.Mode = "writers"
 						fc.Script = [][]any{{"asbytes"}, {"open", 1}, {"readall", 1, sh.k + 1}, {"seek", 1, 0, 2},
 							{"open", 2}, {"readall", 2, L + 7}, {"open", 3}, {"readall", 3, 1}}
+						// positioned reads: from every chunk boundary and one byte after it
+						for a := 0; a < L; a += sh.k {
+							fc.Script = append(fc.Script, []any{"seek", 2, a, 0}, []any{"read", 2, sh.k + 1}, []any{"seek", 3, a + 1, 0}, []any{"readall", 3, 2 * sh.k})
+						}
 						if err := runFileCase(fc, tr); err != nil {
 							return err
 						}
